@@ -13,6 +13,9 @@
 //     peripheral already accepted is decrypted with an advanced packet counter and therefore always fails its MIC.
 //     The harness emulates CCM by stamping the sender's packet counter on every non-empty PDU at first transmission
 //     (a retransmission is the identical cipher text) and comparing it with the receiver's counter.
+// A share of the central's non-empty PDUs carries the reserved LLID 0b00 (Core Vol 6 Part B 2.4): such a PDU must never
+// reach the upper layer; if it is acknowledged its nonce is used up, so the receive packet counter has to advance with
+// the acknowledgement (the end to end counter stamps of all later PDUs show a miss).
 // Every payload carries a unique id.  The oracle never looks at the buffer's sequence number state; it only uses what
 // was fed into the radio interface and what came out of it.
 #include <bluetoe/nrf.hpp>
@@ -120,9 +123,9 @@ static inline std::uint8_t pbyte(std::uint32_t idx, std::size_t i, std::uint8_t 
 static const std::uint8_t DIR_C = 0x11, DIR_P = 0x77;
 
 struct evlog {
-    std::uint8_t kind;                  // 0 exchange, 1 commit, 2 commit failed (no memory), 3 consumed, 4 drain marker
+    std::uint8_t kind;                  // 0 exchange, 1 commit, 2 commit failed (no memory), 3 consumed, 4 drain marker, 5/6 bracket: consumed between rx allocation and ISR
     std::uint8_t c2p, p2c, route;
-    bool c_empty, c_sn, c_nesn, c_retx; std::uint32_t c_idx; std::uint8_t c_len;
+    bool c_empty, c_sn, c_nesn, c_retx, c_res; std::uint32_t c_idx; std::uint8_t c_len;
     bool t_valid, t_empty, t_sn, t_nesn; std::int32_t t_idx; std::uint8_t t_len;
     std::uint32_t a, b;
 };
@@ -161,14 +164,15 @@ struct world {
     bool c_sn, c_nesn;              // transmitSeqNum, nextExpectedSeqNum
     bool c_out;                     // a PDU is unacknowledged
     bool cur_empty, cur_sn; std::uint32_t cur_idx; unsigned long long cur_stamp;
-    bool cur_accepted, cur_mic_new, cur_mic_fault_seen;
+    bool cur_accepted, cur_mic_new, cur_mic_fault_seen, cur_res_acked;
     unsigned long long c_txctr, c_rxctr;
     std::size_t c_acked_data, c_accept_cnt;
     // ---- what the harness fed into / saw from the peripheral ----
     std::vector<pdu_rec> p_commits; std::vector<region> p_regions;
     std::size_t p_ackconv;          // data commits whose acknowledgement reached the peripheral
     bool out_valid, out_empty, out_sn; std::uint32_t out_idx;
-    std::size_t delivered, accepted_data;
+    std::size_t delivered, accepted_data;    // indices into c_sent: next PDU the upper layer must get / next not yet handed to received()
+    void skip_reserved() { while (delivered < c_sent.size() && c_sent[delivered].llid == 0) ++delivered; }   // reserved LLID: never delivered
     std::deque<region> rx_live;
     unsigned long rx_seen, tx_seen, rx_base, tx_base;
     unsigned long prx() { return B.rx_ctr() - rx_base; }    // packet counters since the start of this connection
@@ -191,9 +195,9 @@ struct world {
         verif::ctx_step(++g_step); verif::ctx_op(fresh_object ? "construct" : "reset_pdu_buffer");
         if (fresh_object) B.fresh(); else B.reset();
         if (S.max_rx != 29 || S.max_tx != 29) B.set_max(S.max_rx, S.max_tx);
-        bad = false; bad16 = false; log.clear(); pattern = pat;
+        bad = false; bad16 = false; log.clear(); pattern = pat; pend_valid = false;
         c_sent.clear(); c_sn = c_nesn = false; c_out = false; cur_empty = true; cur_sn = false; cur_idx = 0; cur_stamp = 0;
-        cur_accepted = cur_mic_new = cur_mic_fault_seen = false; c_txctr = c_rxctr = 0; c_acked_data = c_accept_cnt = 0;
+        cur_accepted = cur_mic_new = cur_mic_fault_seen = cur_res_acked = false; c_txctr = c_rxctr = 0; c_acked_data = c_accept_cnt = 0;
         p_commits.clear(); p_regions.clear(); p_ackconv = 0; out_valid = false; out_empty = true; out_sn = false; out_idx = 0;
         delivered = accepted_data = 0; rx_live.clear(); rx_seen = rx_base = B.rx_ctr(); tx_seen = tx_base = B.tx_ctr(); events = 0;
     }
@@ -212,9 +216,11 @@ struct world {
             else if (e.kind == 2) s += " commit_failed(no tx memory)";
             else if (e.kind == 3) s += " upper_layer_took(C#" + std::to_string(e.a) + ")";
             else if (e.kind == 4) s += " [drain: all ok, no new data]";
+            else if (e.kind == 5) s += " [radio of the next event already owns its receive buffer:";
+            else if (e.kind == 6) s += " ]";
             else {
                 s += " ev" + std::to_string(ev) + "{C->P ";
-                s += e.c_empty ? "empty" : ("C#" + std::to_string(e.c_idx) + " len=" + std::to_string(e.c_len));
+                s += e.c_empty ? "empty" : ("C#" + std::to_string(e.c_idx) + (e.c_res ? "(LLID=0)" : "") + " len=" + std::to_string(e.c_len));
                 s += std::string(" sn=") + (e.c_sn ? "1" : "0") + " nesn=" + (e.c_nesn ? "1" : "0") + (e.c_retx ? " retx" : " new") + " [" + oname(e.c2p) + "]";
                 if (e.c2p != O_LOST) {
                     s += std::string(" -> ") + rname(e.route) + "; P->C ";
@@ -264,8 +270,13 @@ struct world {
 
     // ---------------------------------------------------------------------------------------------------- link layer side
     // returns true when a PDU was committed
-    bool commit(std::size_t len, std::uint8_t llid, bool alloc_max, std::uint8_t junk) {
+    // The link layer assembles a PDU in an allocated buffer; radio interrupts (acknowledgements that empty the transmit
+    // ring) can happen before it commits.  begin_commit allocates and writes, finish_commit commits.
+    bool pend_valid; ll::read_buffer pend_rb; pdu_rec pend_rec; std::vector<std::uint8_t> pend_img, rx_img;
+    bool commit(std::size_t len, std::uint8_t llid, bool alloc_max, std::uint8_t junk) { return begin_commit(len, llid, alloc_max, junk) && finish_commit(); }
+    bool begin_commit(std::size_t len, std::uint8_t llid, bool alloc_max, std::uint8_t junk) {
         verif::monitor& M = M15();
+        if (pend_valid) return false;
         if (len < 1) len = 1;
         if (len > max_p_payload()) len = max_p_payload();
         const std::size_t want = alloc_max ? S.max_tx + B.GAP : mem(len);
@@ -288,6 +299,23 @@ struct world {
         pdu_rec r = { llid, static_cast<std::uint8_t>(len) };
         const std::uint32_t idx = static_cast<std::uint32_t>(p_commits.size());
         write_pdu(b.buffer, llid, r, idx, DIR_P);
+        pend_valid = true; pend_rb = b; pend_rec = r; pend_img.assign(b.buffer, b.buffer + b.size);
+        return true;
+    }
+    bool finish_commit() {
+        verif::monitor& M = M15();
+        if (!pend_valid) return false;
+        pend_valid = false;
+        const ll::read_buffer b = pend_rb; const pdu_rec r = pend_rec; const std::size_t len = r.len;
+        const std::uint32_t idx = static_cast<std::uint32_t>(p_commits.size());
+        M.eval();
+        // memory handed out by allocate_transmit_buffer belongs to the link layer until it is committed
+        if (std::memcmp(b.buffer, pend_img.data(), b.size) != 0) {
+            std::size_t d = 0; while (b.buffer[d] == pend_img[d]) ++d;
+            viol("C15", "tx_alloc:allocated_buffer_modified_before_commit", "the buffer returned by allocate_transmit_buffer (offset " + std::to_string(static_cast<long>(b.buffer - B.raw())) +
+                 " of the transmit memory) was modified at byte " + std::to_string(d) + " while the link layer was assembling P#" + std::to_string(idx) + ": " + verif::hex(b.buffer, std::min<std::size_t>(b.size, 8)) + " expected " + verif::hex(pend_img.data(), std::min<std::size_t>(b.size, 8)));
+            return false;
+        }
         verif::ctx_step(++g_step); verif::ctx_op("commit_transmit_buffer", b.buffer, std::min<std::size_t>(b.size, 8));
         B.commit(b);
         p_commits.push_back(r);
@@ -306,6 +334,7 @@ struct world {
         if (w.size == 0) return false;
         if (!inside(w.buffer, w.size, B.raw() + B.TX, B.RX)) { viol("C15", "c2p:delivered_from_outside_receive_memory", "next_received() points outside the receive part of the buffer"); return false; }
         if (w.size < mem(0) || w.size != mem(w.buffer[1])) { viol("C15", "c2p:delivered_wrong_size", "next_received().size = " + std::to_string(w.size) + " for length field " + std::to_string(w.buffer[1])); return false; }
+        skip_reserved();
         if (delivered < c_sent.size() && same_pdu(w.buffer, c_sent[delivered], static_cast<std::uint32_t>(delivered), DIR_C)) {
             if (delivered >= accepted_data) { viol("C15", "c2p:delivered_but_never_received", "upper layer got C#" + std::to_string(delivered) + " which was never handed to received()"); return false; }
             evlog e = evlog(); e.kind = 3; e.a = static_cast<std::uint32_t>(delivered); log.push_back(e);
@@ -314,7 +343,8 @@ struct world {
         } else {
             const std::string hexs = verif::hex(w.buffer, std::min<std::size_t>(w.size, 16));
             const int j = find_pdu(w.buffer, c_sent, DIR_C);
-            if (j >= 0 && static_cast<std::size_t>(j) < delivered) viol("C15", "c2p:delivered_twice", "upper layer got C#" + std::to_string(j) + " again, expected C#" + std::to_string(delivered) + " bytes " + hexs);
+            if (j >= 0 && c_sent[j].llid == 0) viol("C15", "c2p:reserved_llid_pdu_delivered", "upper layer got C#" + std::to_string(j) + " which carries the reserved LLID 0");
+            else if (j >= 0 && static_cast<std::size_t>(j) < delivered) viol("C15", "c2p:delivered_twice", "upper layer got C#" + std::to_string(j) + " again, expected C#" + std::to_string(delivered) + " bytes " + hexs);
             else if (j >= 0) viol("C15", "c2p:skipped_or_reordered", "upper layer got C#" + std::to_string(j) + " but C#" + std::to_string(delivered) + " was not delivered yet");
             else viol("C15", "c2p:altered_or_unknown", "upper layer got a PDU that the central never sent (expected C#" + std::to_string(delivered) + "): " + hexs);
             return false;
@@ -354,7 +384,7 @@ struct world {
         else fcls(M, "central_busy_nak");
         if (c_out && t_nesn != c_sn) {
             if (!cur_empty) {
-                if (!cur_accepted) {
+                if (!cur_accepted && c_sent[cur_idx].llid != 0) {
                     if (cur_mic_new) viol("C17", "ack:central_saw_ack_for_mic_failed_pdu", "central received an acknowledgement for C#" + std::to_string(cur_idx) + " which failed its MIC and was never delivered");
                     else viol("C15", "ack:central_saw_ack_for_pdu_never_stored", "central received an acknowledgement for C#" + std::to_string(cur_idx) + " which was never handed to received()");
                     return false;
@@ -369,7 +399,7 @@ struct world {
 
     // ---------------------------------------------------------------------------------------------------- one exchange
     // central_has_data is only used when the central has no unacknowledged PDU
-    bool exchange(int c2p, int p2c, bool central_has_data, std::size_t c_len, bool central_busy, std::uint8_t junk) {
+    bool exchange(int c2p, int p2c, bool central_has_data, std::size_t c_len, bool central_busy, std::uint8_t junk, bool reserved_llid = false, unsigned take_between = 0) {
         verif::monitor& M = M15();
         ++events;
         evlog e = evlog(); e.kind = 0; e.c2p = static_cast<std::uint8_t>(c2p); e.p2c = static_cast<std::uint8_t>(p2c);
@@ -379,15 +409,16 @@ struct world {
             if (central_has_data) {
                 if (c_len < 1) c_len = 1;
                 if (c_len > max_c_payload()) c_len = max_c_payload();
-                pdu_rec r = { static_cast<std::uint8_t>(1 + c_sent.size() % 3), static_cast<std::uint8_t>(c_len) };
+                pdu_rec r = { static_cast<std::uint8_t>(reserved_llid ? 0 : 1 + c_sent.size() % 3), static_cast<std::uint8_t>(c_len) };
                 cur_idx = static_cast<std::uint32_t>(c_sent.size()); c_sent.push_back(r); cur_empty = false; cur_stamp = c_txctr;
             } else cur_empty = true;
-            cur_sn = c_sn; c_out = true; cur_accepted = cur_mic_new = cur_mic_fault_seen = false;
+            cur_sn = c_sn; c_out = true; cur_accepted = cur_mic_new = cur_mic_fault_seen = cur_res_acked = false;
         }
         pdu_rec cur = { 1, 0 }; if (!cur_empty) cur = c_sent[cur_idx];
         const bool hdr_nesn = c_nesn;
         const std::uint8_t hdr0 = static_cast<std::uint8_t>(cur.llid | (hdr_nesn ? 4 : 0) | (cur_sn ? 8 : 0) | ((events & 1) ? 0x10 : 0));
-        e.c_empty = cur_empty; e.c_sn = cur_sn; e.c_nesn = hdr_nesn; e.c_retx = retx; e.c_idx = cur_idx; e.c_len = cur.len;
+        const bool cur_res = !cur_empty && cur.llid == 0;
+        e.c_res = cur_res; e.c_empty = cur_empty; e.c_sn = cur_sn; e.c_nesn = hdr_nesn; e.c_retx = retx; e.c_idx = cur_idx; e.c_len = cur.len;
         if (c2p == O_MIC && (cur_empty || !S.link_enc)) c2p = O_OK;      // an empty PDU has no MIC; the radio never reports a MIC failure for it
         e.c2p = static_cast<std::uint8_t>(c2p);
         if (c2p == O_LOST) { log.push_back(e); fcls(M, "c2p_lost"); return true; }
@@ -408,8 +439,24 @@ struct world {
             // the radio DMA owns all of the buffer
             std::memset(rb.buffer, junk, rb.size);
             write_pdu(rb.buffer, hdr0, cur, cur_idx, DIR_C);
+            if (take_between) {
+                // the upper layer runs (free_received) after the radio got its buffer and before the radio interrupt is served
+                rx_img.assign(rb.buffer, rb.buffer + rb.size);
+                evlog mk = evlog(); mk.kind = 5; log.push_back(mk);
+                const unsigned took = consume(take_between);
+                evlog mk2 = evlog(); mk2.kind = 6; log.push_back(mk2);
+                if (bad) { log.push_back(e); return false; }
+                if (took) fcls(M, "upper_layer_took_pdu_while_radio_owned_receive_buffer");
+                if (std::memcmp(rb.buffer, rx_img.data(), rb.size) != 0) {
+                    std::size_t d = 0; while (rb.buffer[d] == rx_img[d]) ++d;
+                    log.push_back(e);
+                    viol("C15", "rx_alloc:buffer_modified_while_owned_by_radio", "the buffer returned by allocate_receive_buffer (offset " + std::to_string(static_cast<long>(rb.buffer - B.raw() - B.TX)) +
+                         " of the receive memory) was modified at byte " + std::to_string(d) + " by free_received() before the radio handed it to received(): " + verif::hex(rb.buffer, std::min<std::size_t>(rb.size, 8)) + " expected " + verif::hex(rx_img.data(), std::min<std::size_t>(rb.size, 8)));
+                    return false;
+                }
+            }
         } else {
-            if (delivered == accepted_data) M.count("rx_allocation_failed_with_empty_receive_buffer");
+            skip_reserved(); if (delivered >= accepted_data) M.count("rx_allocation_failed_with_empty_receive_buffer");
         }
         const bool mic_bad = S.link_enc && !cur_empty && (c2p == O_MIC || cur_stamp != prx());
         int route;
@@ -429,20 +476,32 @@ struct world {
 
         const unsigned long rxd = B.rx_ctr() - rx_seen, txd = B.tx_ctr() - tx_seen;
         rx_seen = B.rx_ctr(); tx_seen = B.tx_ctr();
-        const bool conveyed = route == RT_RECEIVED || route == RT_ACK;
+        // a first look at the response (validated further down)
+        const bool t_ok = t.buffer != nullptr && t.size >= mem(0);
+        const bool pk_empty = t_ok && t.buffer[1] == 0, pk_sn = t_ok && (t.buffer[0] & 8) != 0, pk_nesn = t_ok && (t.buffer[0] & 4) != 0;
+        const bool t_same_as_out = t_ok && out_valid && pk_sn == out_sn && (pk_empty ? out_empty :
+            (!out_empty && out_idx < p_commits.size() && t.size >= mem(t.buffer[1]) && same_pdu(t.buffer, p_commits[out_idx], out_idx, DIR_P)));
+        // A MIC failed PDU with the reserved LLID may be ignored as a whole ("may acknowledge the central's earlier data"):
+        // whether its NESN was used is taken from what the peripheral does next.
+        const bool optional_ack = route == RT_ACK && cur_res;
+        const bool conveyed = route == RT_RECEIVED || (route == RT_ACK && (!optional_ack || !t_same_as_out));
         const bool ack_conv = conveyed && out_valid && (hdr_nesn != out_sn);
         const bool first_accept = route == RT_RECEIVED && !cur_accepted;
+        // reserved LLID: the nonce is used up when (and only when) the PDU is acknowledged for the first time
+        const bool res_ack_now = cur_res && route == RT_RECEIVED && t_ok && pk_nesn != cur_sn && !cur_res_acked;
+        if (res_ack_now) cur_res_acked = true;
 
         // ---- C16: packet counters
         {
             verif::monitor& K = M16();
             K.eval(2);
-            const unsigned long exp_rx = (first_accept && !cur_empty) ? 1 : 0;
+            const unsigned long exp_rx = cur_res ? (res_ack_now ? 1 : 0) : ((first_accept && !cur_empty) ? 1 : 0);
             const unsigned long exp_tx = (ack_conv && !out_empty) ? 1 : 0;
             std::uint64_t h = verif::mix(verif::hstr("C16"), route); h = verif::mix(h, cur_empty); h = verif::mix(h, retx); h = verif::mix(h, cur_accepted);
-            h = verif::mix(h, out_valid ? (out_empty ? 1 : 2) : 0); h = verif::mix(h, ack_conv); h = verif::mix(h, rxd); h = verif::mix(h, txd); h = verif::mix(h, S.link_enc); h = verif::mix(h, B.GAP);
+            h = verif::mix(h, out_valid ? (out_empty ? 1 : 2) : 0); h = verif::mix(h, ack_conv); h = verif::mix(h, rxd); h = verif::mix(h, txd); h = verif::mix(h, S.link_enc); h = verif::mix(h, B.GAP); h = verif::mix(h, cur_res);
             if (!cur_empty || (out_valid && !out_empty) || retx) K.nontrivial(h);
-            if (route == RT_RECEIVED) fcls(K, cur_empty ? (first_accept ? "rx_new_empty_no_increment" : "rx_retransmitted_empty_no_increment") : (first_accept ? "rx_new_data_increment" : "rx_retransmitted_data_no_increment"));
+            if (cur_res) fcls(K, route == RT_RECEIVED ? (res_ack_now ? "rx_reserved_llid_acknowledged_increment" : "rx_reserved_llid_retransmission_no_increment") : "rx_reserved_llid_not_received_no_increment");
+            else if (route == RT_RECEIVED) fcls(K, cur_empty ? (first_accept ? "rx_new_empty_no_increment" : "rx_retransmitted_empty_no_increment") : (first_accept ? "rx_new_data_increment" : "rx_retransmitted_data_no_increment"));
             else if (route == RT_ACK) fcls(K, cur_accepted ? "rx_mic_failed_retransmission_no_increment" : "rx_mic_failed_new_no_increment");
             else fcls(K, route == RT_NEXT_CRC ? "rx_crc_error_no_increment" : "rx_no_buffer_no_increment");
             if (out_valid) fcls(K, ack_conv ? (out_empty ? "tx_empty_acknowledged_no_increment" : "tx_data_acknowledged_increment") : (out_empty ? "tx_empty_not_acknowledged" : "tx_data_not_acknowledged_no_increment"));
@@ -451,7 +510,7 @@ struct world {
             if (!bad16 && rxd != exp_rx) {
                 if (rxd > exp_rx) C16_VIOL(std::string("rx_counter:extra_increment:") + (route == RT_RECEIVED ? (cur_empty ? "empty_pdu" : "retransmission") : route == RT_ACK ? "mic_failed_pdu" : "nothing_received"),
                                        "increment_receive_packet_counter called " + std::to_string(rxd) + " times, expected " + std::to_string(exp_rx));
-                else C16_VIOL("rx_counter:missing_increment", "a new non-empty PDU was accepted but increment_receive_packet_counter was not called");
+                else C16_VIOL(cur_res ? "rx_counter:missing_increment:acknowledged_reserved_llid_pdu" : "rx_counter:missing_increment", cur_res ? "a new non-empty PDU with the reserved LLID 0 is acknowledged (its nonce is used up, the central advances its packet counter) but increment_receive_packet_counter was not called" : "a new non-empty PDU was accepted but increment_receive_packet_counter was not called");
             }
             if (!bad16 && txd != exp_tx) {
                 if (txd > exp_tx) C16_VIOL(std::string("tx_counter:extra_increment:") + (!out_valid ? "nothing_outstanding" : !ack_conv ? "not_acknowledged" : "empty_pdu"),
@@ -469,9 +528,10 @@ struct world {
         if (route == RT_RECEIVED) {
             if (first_accept) {
                 cur_accepted = true;
-                if (!cur_empty) { ++accepted_data; region g = { rb.buffer, mem(cur.len) }; rx_live.push_back(g); fcls(M, "c2p_new_data_received"); if (cur_mic_fault_seen) fcls(M17(), "mic_failed_pdu_later_retransmitted_and_received"); }
+                if (cur_res) { ++accepted_data; fcls(M, "c2p_reserved_llid_pdu_received"); }
+                else if (!cur_empty) { ++accepted_data; region g = { rb.buffer, mem(cur.len) }; rx_live.push_back(g); fcls(M, "c2p_new_data_received"); if (cur_mic_fault_seen) fcls(M17(), "mic_failed_pdu_later_retransmitted_and_received"); }
                 else fcls(M, "c2p_new_empty_received");
-            } else fcls(M, cur_empty ? "c2p_retransmitted_empty_received" : "c2p_retransmitted_data_received");
+            } else fcls(M, cur_empty ? "c2p_retransmitted_empty_received" : cur_res ? "c2p_reserved_llid_pdu_retransmission_received" : "c2p_retransmitted_data_received");
         } else if (route == RT_ACK) {
             if (!cur_accepted) cur_mic_new = true;
             if (c2p == O_MIC) cur_mic_fault_seen = true;
@@ -526,7 +586,7 @@ struct world {
         out_valid = true; out_empty = t_empty; out_sn = t_sn; out_idx = t_empty ? 0 : static_cast<std::uint32_t>(t_idx);
 
         // ---- acknowledging what was not stored (wire level): NESN must still ask for the central's current PDU
-        if (!cur_empty && !cur_accepted) {
+        if (!cur_empty && !cur_accepted && (!cur_res || route == RT_ACK)) {
             if (route == RT_ACK) {
                 verif::monitor& K = M17(); K.eval();
                 std::uint64_t h = verif::mix(verif::hstr("C17"), retx); h = verif::mix(h, c2p); h = verif::mix(h, out_empty); h = verif::mix(h, ack_conv); h = verif::mix(h, std::min(events, 6u)); h = verif::mix(h, t_nesn != cur_sn); h = verif::mix(h, B.GAP); h = verif::mix(h, p2c);
@@ -539,7 +599,7 @@ struct world {
                 else viol("C15", "nesn:pdu_with_crc_error_acknowledged", "C#" + std::to_string(cur_idx) + " had a CRC error but the response acknowledges it");
                 return false;
             }
-        } else if (route == RT_ACK) {
+        } else if (route == RT_ACK && cur_accepted) {
             // retransmission of a delivered PDU fails its MIC: re-acknowledging is fine, the ack for the peripheral counts
             verif::monitor& K = M17(); K.eval();
             std::uint64_t h = verif::mix(verif::hstr("C17r"), c2p); h = verif::mix(h, out_empty); h = verif::mix(h, ack_conv); h = verif::mix(h, std::min(events, 6u)); h = verif::mix(h, t_nesn != cur_sn); h = verif::mix(h, B.GAP); h = verif::mix(h, p2c);
@@ -565,18 +625,21 @@ struct world {
     void drain_and_check() {
         verif::monitor& M = M15();
         if (bad) return;
+        if (pend_valid) finish_commit();
+        if (bad) return;
         evlog mk = evlog(); mk.kind = 4; log.push_back(mk);
         const unsigned n = static_cast<unsigned>(p_commits.size() - c_accept_cnt) + 5;
         for (unsigned i = 0; i < n && !bad; ++i) { consume(1000); if (!bad) exchange(O_OK, O_OK, false, 0, false, 0xEE); }
         if (!bad) consume(1000);
         if (bad) return;
         M.eval(3); M16().eval(4);
+        skip_reserved();
         if (c_acked_data > delivered) { viol("C15", "c2p:acknowledged_but_never_delivered", "central has " + std::to_string(c_acked_data) + " PDUs acknowledged but the upper layer got only " + std::to_string(delivered)); return; }
         {
             verif::ctx_step(++g_step); verif::ctx_op("allocate_receive_buffer (final)");
             const bool no_mem = B.alloc_rx().size == 0;
-            if (no_mem && delivered == accepted_data && S.mic_faults) { M.count("runs_ending_with_blocked_receive_allocation"); return; }   // not a MIC matter: reported by C15/C18
-            if (no_mem && delivered == accepted_data) {
+            if (no_mem && delivered >= accepted_data && S.mic_faults) { M.count("runs_ending_with_blocked_receive_allocation"); return; }   // not a MIC matter: reported by C15/C18
+            if (no_mem && delivered >= accepted_data) {
                 viol("C15", "progress:receive_allocation_fails_although_receive_buffer_is_empty", std::string("the upper layer took every PDU, the receive buffer is empty, but allocate_receive_buffer() keeps returning no memory: ") +
                      (c_out && !cur_empty && !cur_accepted ? "C#" + std::to_string(cur_idx) + " is retransmitted for ever" : "nothing can be received any more") +
                      "; the radio glue never hands a header to the buffer again, so acknowledgements for the peripheral's PDUs are lost too");
@@ -586,6 +649,8 @@ struct world {
         }
         if (delivered != c_sent.size()) { viol("C15", "c2p:sent_but_not_delivered_after_drain", "central sent " + std::to_string(c_sent.size()) + " data PDUs, upper layer got " + std::to_string(delivered)); return; }
         if (c_accept_cnt != p_commits.size()) { viol("C15", "progress:committed_pdu_not_delivered_on_perfect_channel", std::to_string(p_commits.size()) + " PDUs committed, central got " + std::to_string(c_accept_cnt) + " after " + std::to_string(n) + " fault free events"); return; }
+        // a peripheral that never acknowledges a PDU with the reserved LLID keeps the central retransmitting: not judged here
+        if (c_out && !cur_empty && c_sent[cur_idx].llid == 0) { fcls(M, "run_ended_reserved_llid_pdu_never_acknowledged"); return; }
         // conservation of the packet counters at quiescence
         if (prx() != c_txctr || prx() != c_sent.size()) { viol("C16", "conservation:receive_counter", "receive packet counter " + std::to_string(prx()) + ", central's transmit counter " + std::to_string(c_txctr) + ", data PDUs sent " + std::to_string(c_sent.size())); return; }
         if (ptx() != c_rxctr || ptx() != p_commits.size()) { viol("C16", "conservation:transmit_counter", "transmit packet counter " + std::to_string(ptx()) + ", central's receive counter " + std::to_string(c_rxctr) + ", PDUs committed " + std::to_string(p_commits.size())); return; }
@@ -595,9 +660,9 @@ struct world {
 
 // ---------------------------------------------------------------------------------------------------------------
 // traffic shapes for the enumerated part (deterministic functions of the event index)
-static const int NSHAPES = 8;
+static const int NSHAPES = 9;
 static const char* shape_name(int s) {
-    static const char* n[] = { "idle", "central_data", "central_data_slow_consumer", "peripheral_data", "both", "alternating", "commit_after_empty_pdu", "bursts_slow_consumer" };
+    static const char* n[] = { "idle", "central_data", "central_data_slow_consumer", "peripheral_data", "both", "alternating", "commit_after_empty_pdu", "bursts_slow_consumer", "reserved_llid_mix" };
     return n[s];
 }
 static unsigned g_len_phase = 0;   // derived from the seed: different seeds enumerate the same fault patterns over different PDU lengths
@@ -622,16 +687,26 @@ struct shape_driver {
         case 4: cdata = true; before = 1; break;
         case 5: cdata = (i % 2 == 0); before = (i % 2 == 1) ? 1 : 0; break;
         case 6: cdata = (i % 3 == 1); after = (i % 2 == 0) ? 1 : 0; break;
-        default: cdata = true; before = (i % 4 == 0) ? 3 : 0; take = (i % 4 == 3) ? 1000 : 0; break;
+        case 7: cdata = true; before = (i % 4 == 0) ? 3 : 0; take = (i % 4 == 3) ? 1000 : 0; break;
+        default: cdata = true; before = (i % 2 == 0) ? 1 : 0; break;      // every second central PDU carries the reserved LLID
         }
-        for (int k = 0; k < before && !W.bad; ++k) do_commit();
+        // a small share of reserved-LLID PDUs in every shape, a large one in the last
+        const bool reserved = shape == 8 ? (ncentral % 2 == 1) : (ncentral % 5 == 2);
+        // interleavings of link layer and radio interrupt: in some shapes the upper layer frees received PDUs while the radio
+        // already owns the next receive buffer, and the link layer assembles a PDU while the interrupt acknowledges others
+        // (not in C17 mode: these interleavings are not a MIC matter, C15 reports them)
+        const bool take_in_between = !W.S.mic_faults && (shape == 2 || shape == 7 || (shape == 8 && (i & 1)));
+        const bool split_commit = !W.S.mic_faults && (shape == 5 || shape == 8 || shape == 3) && before > 0;
+        for (int k = 0; k < before - (split_commit ? 1 : 0) && !W.bad; ++k) do_commit();
+        if (split_commit && !W.bad) { const std::size_t l = len_of(ncommit, W.max_p_payload(), 3); if (W.begin_commit(l, static_cast<std::uint8_t>(1 + (ncommit + 1) % 3), (ncommit & 1) == 0, (ncommit & 2) ? 0x00 : 0xEE)) ++ncommit; }
         if (W.bad) return false;
         const bool was_out = W.c_out;
-        const bool ok = W.exchange(c2p, p2c, cdata, len_of(ncentral, W.max_c_payload(), 0), false, (i & 1) ? 0x00 : 0xEE);
+        const bool ok = W.exchange(c2p, p2c, cdata, len_of(ncentral, W.max_c_payload(), 0), false, (i & 1) ? 0x00 : 0xEE, reserved, take_in_between ? take : 0);
         if (!was_out && cdata) ++ncentral;
         if (!ok) return false;
+        if (W.pend_valid) { if (W.finish_commit()) fcls(W.M15(), "commit_finished_after_radio_interrupt"); if (W.bad) return false; }
         for (int k = 0; k < after && !W.bad; ++k) do_commit();
-        if (!W.bad && take) W.consume(take);
+        if (!W.bad && take && !take_in_between) W.consume(take);
         return !W.bad;
     }
 };
@@ -689,7 +764,11 @@ static void random_runs(world& W, verif::prng& r, unsigned long long events_tota
             unsigned x = r.below(1000); if (x < p[0]) c2p = O_LOST; else if (x < p[0] + p[1]) c2p = O_CRC; else if (x < p[0] + p[1] + mic_pm) c2p = O_MIC;
             x = r.below(1000); if (x < p[2]) p2c = O_LOST; else if (x < p[2] + p[3]) p2c = O_CRC;
             std::size_t cl; switch (r.below(5)) { case 0: cl = 1; break; case 1: cl = W.max_c_payload(); break; case 2: cl = std::min<std::size_t>(27, W.max_c_payload()); break; default: cl = 1 + r.below(static_cast<std::uint32_t>(W.max_c_payload())); }
-            W.exchange(c2p, p2c, r.below(1000) < c_data_pm, cl, r.below(1000) < busy_pm, r.byte());
+            const bool inter = !W.S.mic_faults;
+            if (!W.bad && inter && r.below(1000) < p_data_pm / 3) W.begin_commit(1 + r.below(static_cast<std::uint32_t>(W.max_p_payload())), static_cast<std::uint8_t>(1 + r.below(3)), r.chance(1, 2), r.byte());
+            if (W.bad) break;
+            W.exchange(c2p, p2c, r.below(1000) < c_data_pm, cl, r.below(1000) < busy_pm, r.byte(), r.below(100) < 8, (inter && r.chance(1, 3)) ? 1 + r.below(3) : 0);
+            if (!W.bad && W.pend_valid && W.finish_commit()) fcls(W.M15(), "commit_finished_after_radio_interrupt");
             ++done;
             if (!W.bad && r.below(1000) < p_data_pm / 3) W.commit(1 + r.below(static_cast<std::uint32_t>(W.max_p_payload())), static_cast<std::uint8_t>(1 + r.below(3)), r.chance(1, 2), r.byte());
             if (!W.bad && r.below(1000) < take_pm) W.consume(1 + r.below(3));
